@@ -7,6 +7,8 @@ COMMON_ASSUME = [
 ]
 
 TIERS = {
+    "C07": {"quick": {"runs": 400, "budget_s": 70, "run_timeout_s": 300},
+            "thorough": {"runs": 6000, "budget_s": 900, "run_timeout_s": 600}},
     "C03": {"quick": {"runs": 400, "budget_s": 80, "run_timeout_s": 300},
             "thorough": {"runs": 6000, "budget_s": 900, "run_timeout_s": 600}},
     "C04": {"quick": {"runs": 400, "budget_s": 80, "run_timeout_s": 300},
@@ -33,6 +35,19 @@ TM_RULE = ("case = (generated program, argument, seeded history of trace transit
            "or a fault fired")
 
 META = {
+    "C07": {"LEVEL": "exploration",
+            "RULE": "case = (generated program shape over sites / nested scans / modular_vmap / cond / nested seed / @gen calls, "
+                    "top-level keys, mode: TRACER key-fingerprint run, REAL distinctness run, or statistical batch); distinct = "
+                    "distinct (mode, program shape); non-trivial = at least 2 sites and at least one of scan/vmap/cond/nested seed/gen",
+            "COMPONENTS": {"real": ["genjax.pjax.Seed (key splitting, scan fold_in, cond split)", "genjax.pjax.ModularVmap + batch rules",
+                                    "TFP samplers (REAL modes)"],
+                           "stub": ["TRACER: leaf samplers replaced by key-fingerprint distributions built with the public tfp_distribution contract",
+                                    "sim/jaxcompat.py API adapter (JAX only)"], "regimes": "TRACER + REAL"},
+            "ASSUMPTIONS": COMMON_ASSUME + ["distinct threefry keys give independent streams",
+                                            "statistical clauses use a two-stage test (z>5.4 twice, second batch 8x larger)"],
+            "REQUIRED_PROBES": {"quick": ["tracer_runs", "real_distinct_runs", "stat_runs", "shape_scan", "shape_mvmap"],
+                                "thorough": ["tracer_runs", "real_distinct_runs", "stat_runs", "shape_scan", "shape_mvmap",
+                                             "shape_cond", "shape_nseed", "scan_of_vmap", "vmap_of_scan", "cond_in_scan"]}},
     "C03": {"LEVEL": "exploration", "RULE": TM_RULE + "; transitions: init, update (gf.update / Trace.update, new args that "
             "flip Cond predicates, constraint subsets), round trip with the discard", "COMPONENTS": GFI_COMPONENTS,
             "ASSUMPTIONS": COMMON_ASSUME + ["PPL-ref reference trace (dict + args) is the oracle"],
